@@ -1,4 +1,5 @@
 import PmtilesModel.Gen.Facts
+import PmtilesModel.Obligations.CLI
 /-! Facts obligation for C04: both walks (server, CLI) visit at least root + 3 leaf levels. -/
 namespace Pm.Obligations.C04
 open Pm
@@ -9,5 +10,10 @@ def levelsOk : List (String × Option Nat) → Bool
   | (_, some n) :: r => decide (4 ≤ n) && levelsOk r
 
 theorem walk_levels : levelsOk Facts.walkLevels = true := by decide
+
+/-- `pmtiles tile` (main.go) hands path and z, x, y to `Show` in this order, with `showTile` set -/
+theorem tile_call : CLI.callOK "Show:tile"
+    ["logger", "os.Stdout", "Tile.Bucket", "Tile.Path", "false", "false", "false", "\"\"", "true", "Tile.Z", "Tile.X", "Tile.Y"] = true := by decide
+theorem tile_error_fatal : CLI.fatalOK "Show:tile" = true := by decide
 
 end Pm.Obligations.C04
